@@ -11,6 +11,7 @@ import (
 	"path/filepath"
 	"strings"
 	"sync"
+	"sync/atomic"
 	"time"
 )
 
@@ -227,6 +228,8 @@ func discharge(o *Obligation, dir string, timeout int, wantModel bool) {
 	}
 }
 
+var failedSoFar int32
+
 func dischargeAll(obls []*Obligation, dir string, timeout int, workers int) {
 	os.MkdirAll(dir, 0o755)
 	var wg sync.WaitGroup
@@ -240,7 +243,19 @@ func dischargeAll(obls []*Obligation, dir string, timeout int, workers int) {
 				if knownFindingNames()[baseOblName(o.Name)] && t > 10 {
 					t = 10 // an obligation recorded as a known finding is expected to fail: no long search
 				}
+				// once a few obligations of this run have failed, the run is going to report a violation whatever the
+				// rest does: the remaining obligations only add detail and get a short search, so that a check on a
+				// broken tree ends in minutes.  On a tree where everything is proved this never triggers.
+				if n := atomic.LoadInt32(&failedSoFar); n >= 12 && t > 5 {
+					t = 5
+				} else if n >= 3 && t > 15 {
+					t = 15
+				}
+				o.limit = t
 				discharge(o, dir, t, true)
+				if o.Status != "proved" && !knownFindingNames()[baseOblName(o.Name)] {
+					atomic.AddInt32(&failedSoFar, 1)
+				}
 			}
 		}()
 	}
